@@ -37,7 +37,7 @@ def gen(rng, tier, no_repl_only=False, region_p=0.25):
         # population labels: the classic equal-length ones, and labels of unequal length in every lexicographic arrangement
         pops = list(rng.choice([["CEU", "YRI", "AMR"], ["CEU", "YRI", "AMR"], ["European", "Yoruba", "Han"], ["P1", "POP_TWO", "Z"], ["Longest_name", "mid", "b"]]))[: rng.randint(2, 3)]
         nsim = rng.randint(1, 3)
-        chroms = sorted(rng.sample(["1", "2", "3", "X"], rng.randint(1, 3)), key=cnum)
+        chroms = sorted(rng.sample(["1", "2", "3", "10", "22", "X"], rng.randint(1, 3)), key=cnum)  # 2 before 10: numeric, not textual, order
         no_repl = no_repl_only or rng.random() < 0.3
         per_pop = rng.randint(nsim if no_repl else 1, nsim + 2) if no_repl else rng.randint(1, 3)
         refs, info = [], []
@@ -61,7 +61,7 @@ def gen(rng, tier, no_repl_only=False, region_p=0.25):
         extra = rng.random() < 0.5
         if extra:
             # the panel holds more chromosomes than requested: before, between and after the requested ones
-            others = [c for c in ["1", "2", "3", "X", "Y", "MT"] if c not in chroms]  # Y / MT: non-numeric contigs that are never simulated
+            others = [c for c in ["1", "2", "3", "10", "22", "X", "Y", "MT"] if c not in chroms]  # Y / MT: non-numeric contigs that are never simulated
             ref_chroms = sorted(set(chroms) | set(rng.sample(others, rng.randint(1, len(others)))), key=cnum)
         prefix = "chr" if rng.random() < 0.3 else ""
         want_region = rng.random() < region_p
@@ -115,6 +115,9 @@ def gen_sim(rng, tier):
             return
 
 
+_pipeline_region = None
+
+
 def simulate_bps(case, d):
     import haptools.sim_genotype as sg
 
@@ -125,7 +128,11 @@ def simulate_bps(case, d):
         with open(md / f"genetic_map_chr{c}.map", "w") as f:
             for i, bp in enumerate(SIM_MARKERS):
                 f.write(f"{c} rs{bp} {i * case['sim']['slope']} {bp}\n")
-    n, pop_dict, final = sg.simulate_gt(str(d / "model.dat"), str(md), case["chroms"], case["region"], case["sim"]["popsize"], SD.silent_log(), case["sim"]["seed"])
+    # the command hands one and the same region object to simulate_gt and to output_vcf: so does this pipeline – a copy of the
+    # case's, so that nothing the implementation does to it can reach the oracle
+    global _pipeline_region
+    _pipeline_region = dict(case["region"]) if case["region"] else None
+    n, pop_dict, final = sg.simulate_gt(str(d / "model.dat"), str(md), list(case["chroms"]), _pipeline_region, case["sim"]["popsize"], SD.silent_log(), case["sim"]["seed"])
     bps = sg.write_breakpoints(n, pop_dict, final, str(d / "out"), SD.silent_log())
     # the accompanying .bp file, parsed independently, is what the oracle and the model compare the genotypes with
     haps = []
@@ -215,7 +222,7 @@ def run_output_vcf(case):
     np.random.seed(case["seed"])
     try:
         with rp:
-            sg.output_vcf(bps, case["chroms"], str(d / "model.dat"), ref_file, str(d / "info.tab"), case["region"], case["pop_field"], case["sample_field"], case["no_repl"], out, SD.silent_log())
+            sg.output_vcf(bps, list(case["chroms"]), str(d / "model.dat"), ref_file, str(d / "info.tab"), (_pipeline_region if case.get("sim") else (dict(case["region"]) if case["region"] else None)), case["pop_field"], case["sample_field"], case["no_repl"], out, SD.silent_log())
     finally:
         sg._convert_haplotype = orig_conv
         sg._find_random_sample = orig_frs
@@ -490,7 +497,7 @@ def gen_big(rng, tier):
     n = 6 if tier == "quick" else 60
     for _ in range(n):
         nref = rng.choice([260, 300, 520])
-        chroms = sorted(rng.sample(["1", "2", "X"], rng.randint(1, 2)), key=cnum)
+        chroms = sorted(rng.sample(["1", "2", "10", "X"], rng.randint(1, 2)), key=cnum)
         haps = []
         nsim = rng.randint(2, 4)
         for h in range(2 * nsim):
